@@ -122,7 +122,7 @@ def payload(sid, pos, n):
 # ------------------------------------------------------------------ single-threaded cases
 def gen_seq_case(rng, big):
     wild = rng.chance(1, 10)          # 1 case in 10 also breaks the environment contract (data/close after a close)
-    maxbuf = rng.choice([0, 1, 2, 5, 10, 16, 16, 64, 64, 64, 1000, 1000, 1000] + ([65536, 70000, 1048576, 1048576] if big else []))
+    maxbuf = rng.choice([0, 1, 2, 3, 4, 5, 6, 8, 10, 16, 16, 64, 64, 64, 1000, 1000, 1000] + ([65536, 70000, 1048576, 1048576] if big else []))
     gc = rng.choice([1024, 1024, 1024, 1024, 0, 1, 2])
     allow = 0 if rng.chance(1, 30) else 1
     sids = sorted(set(rng.range(1, 9) for _ in range(rng.choice([1, 1, 2, 3]))))
@@ -215,13 +215,24 @@ def gen_seq_case(rng, big):
                 # CancellationToken::reset(): later cancellable calls read PAST the point where the cancelled one stopped
                 ops.append("creset %d" % s)
                 cancelled.discard(s)
-            elif j in (8, 9) and allow and gmode.get(s) == "s" and s not in dead and s not in ovf and not fence and maxbuf - pend[s] >= 1 \
+            elif j in (8, 9) and allow and gmode.get(s) == "s" and s not in dead and s not in ovf and not fence and maxbuf >= 1 \
                     and s not in cancelled and ln >= 1:
-                # the C03-d window, deterministically: the wrapper's sub-call is parked, the token is cancelled, THEN the chunk arrives
-                cl = rng.range(1, min(maxbuf - pend[s], 8))
+                # the C03-d window, deterministically: the wrapper's sub-call is parked, the token is cancelled, THEN the chunk arrives.
+                # Against nearly-full buffers too: the receive first takes min(ln, buffered), then the chunk must fit into what is left -
+                # one chunk in three is drawn around that boundary (fits exactly / one too many / far too many: dropped, overflow)
+                left = max(0, pend[s] - ln) if pend[s] > 0 else 0
+                room = max(0, maxbuf - left)
+                if rng.chance(1, 3) or room < 1:
+                    cl = rng.choice([max(room, 1), room + 1, room + 2, maxbuf + 1])
+                else:
+                    cl = rng.range(1, min(room, 8))
                 ops.append("recvcx %d %d 2000 %s" % (s, ln, hexs(payload(s, pos[s], cl))))
                 pos[s] += cl
-                pend[s] = max(0, pend[s] + cl - ln)
+                if left + cl > maxbuf:
+                    ovf.add(s)
+                    pend[s] = left
+                else:
+                    pend[s] = left + cl if pend[s] > 0 else max(0, cl - ln)
                 cancelled.add(s)
                 if rng.chance(3, 4):
                     ops.append("creset %d" % s)
@@ -348,8 +359,17 @@ def seq_monitor(c, impl):
                 bad.append("T6/in-time: `%s` answered %s, more than 1.5 s after its timeout" % (op[:60], r))
             r = r.split("!")[0]
             if t[0] in ("recvlong", "recvcx"):
+                # the op CARRIES an arrival: the harness injects the chunk once the receive is parked or has returned. A receive that
+                # finds bytes buffered returns them at once (before the chunk); one that finds nothing parks and the chunk arrives first.
+                # The chunk is accounted for exactly like a `data` op at that point - a chunk that does not fit is DROPPED and the
+                # overflow is expected from then on (thorough seed 11: 4 of 5 bytes buffered, recvcx reads 1, its 3-byte chunk overflows).
                 chunk = unhex(t[4])
-                if mode.get(sid, "a") != "d":
+                m = mode.get(sid, "a")
+                if m != "d":
+                    pre = len(arrived[sid]) - len(out[sid])
+                    took = len(unhex(r[3:])) if (r.startswith("ok:") and pre > 0) else 0
+                    if m == "s" and pre - took + len(chunk) > maxbuf and sid not in ovf_expected and not fence:
+                        ovf_expected.add(sid)
                     arrived[sid].extend(chunk)
             if t[0] == "recvcx":
                 if sid in cancelled and r != "err:Cancelled":
